@@ -130,6 +130,8 @@ def build_models(spec):
             meta_attrs = {'app_label': app}
             if meta.get('db_table'):
                 meta_attrs['db_table'] = meta['db_table']
+            if meta.get('db_table_comment'):
+                meta_attrs['db_table_comment'] = meta['db_table_comment']
             if meta.get('unique_together'):
                 meta_attrs['unique_together'] = [
                     tuple(t) for t in meta['unique_together']]
